@@ -238,13 +238,14 @@ SPECS = {
                      "compared with a retention model (pending/stored per member) and the sender-key-at-leaf rule; storage contents compared "
                      "with the model after every write; one evaluation = one late delivery or one storage comparison; distinct = distinct "
                      "(age, retained, sender key unchanged, was member, R) cells"),
-    "C20": dict(shards=(4, 4), level="exploration", exhaustive=True,
-                floors={"quick": {"sizes_exhaustive": 13, "sizes_sampled": 12, "outside_nodes": 26}},
+    "C20": dict(shards=(4, 16), level="exploration", exhaustive=True,
+                floors={"quick": {"sizes_exhaustive": 13, "sizes_sampled": 12, "outside_nodes": 26},
+                        "thorough": {"sizes_exhaustive": 21, "sizes_sampled": 4}},
                 show=("sizes_", "inside_nodes", "outside_nodes", "lca_pairs"),
-                rule="every power-of-two leaf count 2^0..2^12 and every node index in [0, 2n] (in the tree and the first indices outside) "
+                rule="every power-of-two leaf count 2^0..2^12 (thorough: 2^20) and every node index in [0, 2n] (in the tree and the first indices outside) "
                      "is compared with a reference that halves intervals (root, left, right, parent, sibling, direct path, copath, subtree "
-                     "leaf range, BFS order, is_in_tree); LCA level for all leaf pairs up to 2^9 (thorough 2^11) and sampled pairs above; "
-                     "sizes 2^13..2^24 sampled around every level boundary; LeafIndex bound; distinct = distinct (n, x) pairs; exhaustive "
+                     "leaf range, BFS order, is_in_tree); LCA level for all leaf pairs up to 2^9 (thorough 2^12) and sampled pairs above; "
+                     "the larger sizes up to 2^24 sampled around every level boundary; LeafIndex bound; distinct = distinct (n, x) pairs; exhaustive "
                      "for the sizes named in the property"),
 }
 
@@ -360,8 +361,18 @@ def check(prop, tier, seed, replay=None):
     workers = min(len(shard_list), spec.get("workers", os.cpu_count() or 4))
     with cf.ThreadPoolExecutor(max_workers=workers) as ex:
         outs = list(ex.map(lambda s: run_shard(prop, tier, seed, s, nsh, extra_args), shard_list))
+    # a shard process that died or ran into the watchdog is run once more, alone, before the
+    # verdict is called inconclusive (a killed process is not a statement about the library)
+    retried = 0
+    for k, d in enumerate(outs):
+        if d.get("status") != "ok":
+            retried += 1
+            say(f"   shard {d.get('shard')} {d.get('status')} rc={d.get('rc')}: running it again alone")
+            outs[k] = run_shard(prop, tier, seed, d.get("shard"), nsh, extra_args)
     bad = [d for d in outs if d.get("status") != "ok"]
     evaluations, distinct, counters, samples, viol, inconcl, extra = merge(outs)
+    if retried:
+        counters["shards_rerun_alone"] = retried
     ctx = dict(prop=prop, tier=tier, seed=seed, counters=counters, say=say)
     # offline checker over the event logs the shards wrote
     post = spec.get("post")
@@ -456,7 +467,7 @@ def check(prop, tier, seed, replay=None):
         return 1
     if bad:
         for d in bad[:3]:
-            say(f"INCONCLUSIVE property={prop} reason=shard {d['shard']} {d['status']} {d.get('stderr', '')[-600:]}")
+            say(f"INCONCLUSIVE property={prop} reason=shard {d['shard']} {d['status']} rc={d.get('rc')} {d.get('stderr', '')[-600:]}")
         return 2
     if inconcl:
         for x in inconcl[:5]:
